@@ -141,10 +141,20 @@ class _Base:
 # ---------------------------------------------------------------------------
 
 CSHARP_SIMPLE_ESCAPES = set("'\"\\0abfnrtv")
+# ECMA-334 "new_line_character": LF, CR, NEL, LS, PS
+CSHARP_NEWLINES = "\n\r\u0085\u2028\u2029"
 CSHARP_PUNCT = set("+-*/%&|^!~=<>?:;,.")
 
 
 class _CSharp(_Base):
+    def line_comment(self, kind: str = "comment") -> None:
+        start, line = self.i, self.line
+        j = self.i
+        while j < self.n and self.s[j] not in CSHARP_NEWLINES:
+            j += 1
+        self.i = j
+        self.emit(kind, start, line)
+
     def run(self, until_brace: bool = False) -> LexResult:
         """Lex; with ``until_brace`` stop at the ``}`` closing an interpolation hole."""
         s = self.s
@@ -157,13 +167,19 @@ class _CSharp(_Base):
                 self.i += 1
                 at_line_start = True
                 continue
-            if ch in " \t\r\f\v﻿ ":
+            if ch in "\r\u0085\u2028\u2029":
+                self.i += 1
+                at_line_start = True
+                continue
+            if ch in " \t\f\v\ufeff\xa0":
                 self.i += 1
                 continue
             if ch == "#" and at_line_start and not until_brace:
                 start, line = self.i, self.line
-                j = s.find("\n", self.i)
-                self.i = self.n if j < 0 else j
+                j = self.i
+                while j < self.n and s[j] not in CSHARP_NEWLINES:
+                    j += 1
+                self.i = j
                 self.emit("directive", start, line)
                 continue
             at_line_start = False
@@ -266,8 +282,9 @@ class _CSharp(_Base):
                 return
             self.i += 2 + need
             return
-        if nxt == "\n":
+        if nxt in CSHARP_NEWLINES:
             self.err(f"newline-in-{where}", "backslash-newline")
+            self.i += 1
             return
         self.err("invalid-escape-sequence", "\\" + nxt)
         self.i += 2
@@ -290,7 +307,7 @@ class _CSharp(_Base):
             if ch == "":
                 self.err("unterminated-string", self.s[start:start + 40], line)
                 break
-            if ch == "\n":
+            if ch in CSHARP_NEWLINES:
                 self.err("newline-in-string", self.s[start:start + 40], line)
                 break
             if ch == '"':
@@ -373,7 +390,7 @@ class _CSharp(_Base):
         start, line = self.i, self.line
         self.i += 1
         ch = self.peek()
-        if ch == "" or ch == "\n":
+        if ch == "" or ch in CSHARP_NEWLINES:
             self.err("unterminated-char", self.s[start:start + 20], line)
             return
         if ch == "'":
@@ -419,7 +436,7 @@ class _Go(_Base):
             if ch in " \t\r":
                 self.i += 1
                 continue
-            if ch == "﻿" and self.i == 0:
+            if ch == "\ufeff" and self.i == 0:
                 self.i += 1
                 continue
             nxt = self.peek(1)
